@@ -42,13 +42,13 @@ CHECKS = {
                      "executions whose End event requires the model's terminal predicate (tokens full, nothing waiting). Death of a scheduler "
                      "followed by the job's own end, death in the middle of the token-file creation, partial returns of capacity: scripted on "
                      "real processes; at every quiescent point of the log a waiting job whose request fits must have been told, and the token "
-                     "files of ended jobs must be gone. Lost wake-ups inside the window of an aborted start are searched with starvation schedules and 5x more schedules on contention plans; the quiescent-point clauses of XpmTokenFS_Trace (told when it fits, files of ended jobs gone) are evaluated after waiting for events logged after their trigger. token.info declared again (see C06) and left truncated by a dead writer.", note=SCHED_NOTE + " Liveness across processes is checked at scripted quiescent points only."),
+                     "files of ended jobs must be gone. Lost wake-ups inside the window of an aborted start are searched with starvation schedules and 5x more schedules on contention plans; the quiescent-point clauses of XpmTokenFS_Trace (told when it fits, files of ended jobs gone) are evaluated after waiting for events logged after their trigger. token.info declared again (see C06) and left truncated by a dead writer. XpmLazyTable: the table of process handlers built at first use by two reclaim threads at once (scenario two_killed_orphans; TLC on both designs; the counterexample's interleaving forced on the real Process.handler: F24).", note=SCHED_NOTE + " Liveness across processes is checked at scripted quiescent points only."),
     "C05": dict(category="model_checking", engine="E1+E2", design="5 (C05), 3.1, 3.2",
                 technique="TLA+ XpmScheduler (registry, done markers, restart) + XpmJobDir (competing launches): TLC exhaustive + trace validation of E1 executions and of real-process races (E2)",
                 text="Registry de-duplication, 'never launched again when done' and re-submission are checked by TLC on the scheduler model and on "
                      "real scheduler executions (duplicates at every position, later experiments, removed markers); 'the body never runs twice at "
                      "once / again after success' is checked by TLC on the job-directory model (2-3 competing launches, signals anywhere) and on "
-                     "scripted races of 2-3 real job processes whose histories must be behaviours of the model. The first launch is preempted before each of its statements while a second launch arrives (every 4th statement quick, every statement thorough): a lock released before the success marker is written is rejected by the model; a second job created for a configuration that succeeded and never failed is reported. XpmAdopt: the look-up of a job left by an earlier run at the grain of the scheduler's accesses (marker, pid file, process table, wait, marker again) against the last steps of that job; every terminal behaviour exported by TLC (103; thorough: all 553 placements) is replayed on the real scheduler with its accesses intercepted and a real non-child process as the orphan: never launched again when its success marker was there. Duplicates submitted while a job is being adopted are enumerated systematically (plan kill-restart-dup).",
+                     "scripted races of 2-3 real job processes whose histories must be behaviours of the model. The first launch is preempted before each of its statements while a second launch arrives (every 4th statement quick, every statement thorough): a lock released before the success marker is written is rejected by the model; a second job created for a configuration that succeeded and never failed is reported. XpmAdopt: the look-up of a job left by an earlier run at the grain of the scheduler's accesses (marker, pid file, process table, wait, marker again) against the last steps of that job; every terminal behaviour exported by TLC (463, with the orphan running, suspended, already ended, or the job in the hands of another scheduler that is writing its pid file; thorough: also all 553 placements) is replayed on the real scheduler with its accesses intercepted and a real non-child process as the orphan: never launched again when its success marker was there, never an exception (F22, F25). Duplicates submitted while a job is being adopted are enumerated systematically (plan kill-restart-dup).",
                 note=SCHED_NOTE + " E2 races are scripted (holder in body, waiter blocked on the lock, third arrival), not exhaustive at instruction level."),
     "C10": dict(category="fault_enumeration", engine="E2+E1", design="5 (C10), 3.2, 4.4",
                 technique="TLA+ XpmJobDir: TLC exhaustive over signal x statement; fault enumeration signal x executed line of the real TaskRunner, histories validated by TLC (silent-step trace spec)",
